@@ -116,6 +116,7 @@ pub struct Hist {
     pub escrow: BTreeMap<(char, String), Escrow>,
     pub shadow: Shadow,
     pub shadow_live: bool,
+    pub shadow_diverged: bool,
     pub ids_seen: BTreeSet<String>,
     pub closed: BTreeMap<(char, String), &'static str>, // (side, id) -> how it left the book
     pub steps: u64,
@@ -138,6 +139,7 @@ impl Hist {
         }
         self.shadow = Shadow::of_book(&b);
         self.shadow_live = b.odd_asks.is_empty() && b.odd_bids.is_empty();
+        self.shadow_diverged = false;
     }
 }
 
@@ -673,6 +675,32 @@ fn coincidence(parts: &[&str]) -> String {
 }
 
 #[allow(clippy::too_many_arguments)]
+/// C02 / C04 (fee part), judged from the bid's ORIGINAL fee and quote alone — not from the held fee the
+/// book records before the request: the fee a request releases from a bid (to the fee account, back to
+/// the bidder) must be the difference of the pro-rata held fees before and after it.
+fn fee_release_check(prop: &'static str, what: &str, pre: &Bid, post: Option<&Bid>, out: &mut Vec<Viol>) {
+    let fa = match &pre.fee {
+        Some((_, fa)) => *fa,
+        None => return,
+    };
+    if !pre.sane() || post.map_or(false, |p| !p.sane() || p.fee_amount() != fa || p.quote_amount != pre.quote_amount) {
+        return;
+    }
+    let q = pre.quote_amount;
+    let (rq0, hf0) = (pre.rem_quote() as u128, pre.rem_fee() as u128);
+    let (rq1, hf1) = post.map_or((0, 0), |p| (p.rem_quote() as u128, p.rem_fee() as u128));
+    if hf1 > hf0 || within_kf1_window(fa, rq0, q, hf0) || (post.is_some() && within_kf1_window(fa, rq1, q, hf1)) {
+        return;
+    }
+    let released = hf0 - hf1;
+    let adm0 = prorata_set(fa, rq0, q);
+    let adm1 = if post.is_some() { prorata_set(fa, rq1, q) } else { vec![0] };
+    let ok = adm0.iter().any(|x| adm1.iter().any(|y| x >= y && x - y == released));
+    if !ok {
+        viol(out, prop, "fee-release", &format!("fee released from the bid by the {} is not the pro-rata share of the fee escrowed with it", what), format!("released {} ; pro-rata held fee before {:?} after {:?} (original fee {} quote {} unspent {} -> {}) bid {}", released, adm0, adm1, fa, q, rq0, rq1, pre.raw));
+    }
+}
+
 fn step_match(c: &StepCtx, cfg: &Cfg, body: &Value, sender: &str, funds: &[(String, u128)], xfers: &[Xfer], delta: &Ledger, cdelta: &BTreeMap<String, i128>, h: &mut Hist, st: &mut Stats, out: &mut Vec<Viol>) {
     let ask_id = body["ask_id"].as_str().unwrap_or("").to_string();
     let bid_id = body["bid_id"].as_str().unwrap_or("").to_string();
@@ -687,6 +715,7 @@ fn step_match(c: &StepCtx, cfg: &Cfg, body: &Value, sender: &str, funds: &[(Stri
     if a.class == AskClass::Pending {
         viol(out, "C08", "pending-match", "a pending convertible ask was matched", format!("{}", body));
     }
+    fee_release_check("C02", "match", b, c.post_book.bids.get(&bid_id), out);
     let (mv, ctx) = match_verdict(cfg, &c.pre_book, sender, funds, body);
     let ctx = match ctx {
         Some(x) => x,
@@ -961,6 +990,7 @@ fn step_reverse(c: &StepCtx, cfg: &Cfg, kind: &str, body: &Value, delta: &Ledger
                 return;
             }
         };
+        fee_release_check("C04", "reversal", b, c.post_book.bids.get(&id), out);
         let rem = b.rem_base().max(0) as u128;
         let part = if kind == "reject_bid" { explicit } else { None };
         let csize = part.unwrap_or(rem);
@@ -1182,14 +1212,19 @@ fn check_c17(c: &StepCtx, cfg: &Cfg, kind: &str, body: &Value, attrs: &[(String,
         match h.shadow.apply(attrs) {
             Err(e) => {
                 viol(out, "C17", "shadow-book", "attributes cannot be replayed into an off-chain book", format!("{}: {} ; attrs {:?}", kind, e, attrs));
+                if e.contains("match size above") {
+                    // the book kept from the orders' own histories has less left than was just matched
+                    viol(out, "C03", "eligibility", "match carried out above the size the order's own history leaves", format!("{} ; attrs {:?}", e, attrs));
+                }
                 h.shadow_live = false;
             }
             Ok(()) => {
                 let real = Shadow::of_book(&c.post_book);
                 st.count("C17", "shadow_comparisons");
-                if h.shadow != real {
+                if h.shadow != real && !h.shadow_diverged {
                     viol(out, "C17", "shadow-book", "off-chain book kept from attributes diverged from the on-chain book", format!("after {}: shadow {:?} real {:?}", kind, h.shadow, real));
-                    h.shadow_live = false;
+                    // reported once; the off-chain book is still kept (it is what the orders' own histories leave)
+                    h.shadow_diverged = true;
                 }
             }
         }
